@@ -452,6 +452,32 @@ func genC06(e *emitter, tier string, seed uint64) {
 				note("trailing-sep.multisig-stripped", res)
 			}
 		}
+		// ---- what follows a signature check is still the script that was given: CHECKMULTISIG with an empty / a valid
+		//      signature, then a separator and more opcodes (building the script code must not edit the running script)
+		for _, era := range []int{0, fAfterGenesis} {
+			for _, fk := range []int{0, fForkID} {
+				fl := era | fk
+				ht := byte(0x01)
+				if fk != 0 {
+					ht = 0x41
+				}
+				k2, k3 := keys[3], keys[1]
+				head := append(append([]byte{0x51}, rawPush(k2.pubC)...), 0x51, 0xae) // 1 <pk> 1 CHECKMULTISIG
+				for _, tail := range [][]byte{{0xab, 0x91}, {0xab, 0x61, 0x91}, {0xab, 0x00, 0x87}, {0x61, 0xab, 0x91, 0x91, 0x91}, {0xab, 0xab, 0x91, 0x61}} {
+					lk := append(append([]byte{}, head...), tail...)
+					note("after-multisig.empty-sig", ixExecTx(e, fl, []byte{0x00, 0x00}, lk, tx, idx, sats))
+					sig := signFor(tx, idx, stripSepIfLegacy(lk, ht), sats, ht, k2, false)
+					note("after-multisig.valid-sig", ixExecTx(e, fl, append([]byte{0x00}, rawPush(sig)...), lk, tx, idx, sats))
+				}
+				// … DROP CODESEPARATOR <pk3> CHECKSIG: the second signature covers the code after the separator
+				lk := append(append(append([]byte{}, head...), 0x75, 0xab), append(rawPush(k3.pubC), 0xac)...)
+				code := append(rawPush(k3.pubC), 0xac)
+				sig3 := signFor(tx, idx, code, sats, ht, k3, false)
+				note("after-multisig.checksig", ixExecTx(e, fl, append(rawPush(sig3), 0x00, 0x00), lk, tx, idx, sats))
+				sig2 := signFor(tx, idx, stripSepIfLegacy(lk, ht), sats, ht, k2, false)
+				note("after-multisig.checksig", ixExecTx(e, fl, append(append(rawPush(sig3), 0x00), rawPush(sig2)...), lk, tx, idx, sats))
+			}
+		}
 		for _, era := range []int{0, fAfterGenesis} {
 			k2 := keys[3]
 			for _, bad := range [][]byte{{0x30, 0x01, 0x02, 0x01}, {0x01}, {0xff, 0xff, 0x41}, append(r.bytes(70), 0x01)} {
